@@ -134,6 +134,13 @@ def run(ctx):
         if md != rd:
             res.disagreements.append({"stream": "msg.deserialize", "input": {"dir": direction, "b": rb[:200]},
                                       "model": H.brief(md), "code": H.brief(rd)})
+        # oracle through the PUBLIC attributes (getattr on the names of the pinned format, both sides)
+        if mj["k"] == "fixed":
+            pp = H.public_roundtrip_problem(direction, mj)
+            if pp is not None:
+                res.failures.append({"what": "the public attributes of the decoded message differ from those of "
+                                             "the message that was sent", "kf": None,
+                                     "input": {"dir": direction, "m": mj, "detail": pp}})
         # oracle on the real code: deserialize(bytes(m)) == m
         if rd != {"m": mj}:
             diff = None
@@ -297,6 +304,33 @@ def run(ctx):
             res.failures.append({"what": "decode-side history: " + problems[0]["what"], "kf": None,
                                  "input": {"steps": steps[:40], "problems": problems[:4]}})
     res.samples.append({"decode_history": dh[0][0][:6]})
+
+    # ---------------------------------------------------------------- process-wide configurations
+    # every message class / array patterns / a subroutine message, round-tripped on the real code under
+    # every configuration knob of the package (runtime settings, simulator selection, log level DEBUG)
+    compact = []
+    seen_c = set()
+    for (d, mj, tag) in msgs:
+        key = mj.get("c", mj["k"])
+        if mj["k"] == "fixed" and key not in seen_c and any(mj["v"][1:]):
+            seen_c.add(key)
+            compact.append((d, mj))
+    compact += [("ret", {"k": "arr", "a": 5, "v": [1, None, 0, None, -5]}), ("ret", {"k": "arr", "a": 0, "v": []}),
+                ("ret", {"k": "arr", "a": -1, "v": [None, None]}), ("ret", {"k": "arr", "a": 7, "v": list(range(40))}),
+                ("host", {"k": "sub", "b": [0, 0, 1, 0, 4, 0, 5, 0, 0, 0, 0]})]
+
+    def _cfg_pass(cname):
+        for d, mj in compact:
+            res.evaluations += 1
+            res.count("config:" + cname.split("(")[0].split("=")[0])
+            rb, exc = H.real_serialize(mj)
+            rd = H.real_deserialize(d, rb) if rb is not None else {"err": exc}
+            pp = H.public_roundtrip_problem(d, mj)
+            if rd != {"m": mj} or pp is not None:
+                res.failures.append({"what": "deserialize(bytes(m)) != m under a process-wide configuration",
+                                     "kf": None, "input": {"config": cname, "dir": d, "m": mj, "got": H.brief(rd),
+                                                           "public_attributes": pp}})
+    HC.under_every_config(_cfg_pass)
 
     # ---------------------------------------------------------------- malformed stream
     mal = []  # (direction, bytes, tag)
